@@ -83,13 +83,15 @@ def init_worker(tier):
     global _TIER
     _TIER = tier
     _programs(tier)
-    import atexit
     import os
-    import shutil
     from mc import runner
+    # PSyclone must never write into /verif: the workers run in a scratch
+    # directory that is removed straight away (a worker killed by the pool
+    # cannot clean up later); the transformations used here write no files,
+    # and if one ever tried to it would fail loudly in the unlinked directory.
     scratch = runner.scratch_dir("c12")
-    os.chdir(scratch)       # PSyclone must never write into /verif
-    atexit.register(shutil.rmtree, scratch, True)
+    os.chdir(scratch)
+    os.rmdir(scratch)
     _memoise_parser_factory()
 
 
